@@ -148,7 +148,9 @@ def call_lstsq(ex, st, args, kwargs, node):
         raise M.Unsupported('_lstsq: only the call (A, y, lamb=, w=, update_sol=) has a call-site contract')
     A, y = st.deref(args[0]), st.deref(args[1])
     lamb, w, u = kwargs.get('lamb', 1e-2), st.deref(kwargs.get('w', NONE)), st.deref(kwargs.get('update_sol', NONE))
-    if not (X.is_mat(A) and X.is_cvec(y) and (w is NONE or X.is_cvec(w)) and (u is NONE or X.is_cvec(u))):
+    shape_only = all(isinstance(v, VArr) and v.t is None for v in (A, y)) and isinstance(A, VArr) and A.ndim == 2 and y.ndim == 1 \
+        and (w is NONE or (isinstance(w, VArr) and w.ndim == 1)) and (u is NONE or (isinstance(u, VArr) and u.ndim == 1))
+    if not shape_only and not (X.is_mat(A) and X.is_cvec(y) and (w is NONE or X.is_cvec(w)) and (u is NONE or X.is_cvec(u))):
         raise M.Unsupported('_lstsq: arguments without a denotation (matrix, 1-D arrays)')
     ex.oblige(st, 'call-pre', '_lstsq: non-empty design matrix with one row per entry of y',
               z3.And(Z(A.shape[0]) >= 1, Z(A.shape[1]) >= 1, Z(y.shape[0]) == Z(A.shape[0])), node)
@@ -156,6 +158,10 @@ def call_lstsq(ex, st, args, kwargs, node):
         ex.oblige(st, 'call-pre', '_lstsq: one weight per row', Z(w.shape[0]) == Z(A.shape[0]), node)
     if u is not NONE:
         ex.oblige(st, 'call-pre', '_lstsq: update_sol has one entry per column', Z(u.shape[0]) == Z(A.shape[1]), node)
+    if shape_only:                      # shape tier: one solution entry per column (units als._lstsq.*: 'solution-has-one-entry-per-column-of-A')
+        xv = VArr((A.shape[1],), None, None)
+        st.ghost['lstsq_calls'] = st.ghost.get('lstsq_calls', []) + [dict(A=A, y=y, lamb=lamb, w=w, u=u, x=xv, parts=None)]
+        return VTuple([xv, VOpaque('residues'), VOpaque('rank'), VOpaque('s')])
     x, facts, parts = lstsq_terms(A.t, y.t, lamb, None if w is NONE else w.t, None if u is NONE else u.t)
     xs = ex.fresh('xsol', T.Mat)
     st.assume(xs == x, *facts)
@@ -306,3 +312,877 @@ for _w in (False, True):
             def u_(U):
                 _optimize_core_unit(U, w, u)
         _mk()
+
+
+# ----------------------------------------------------------------------------------------------
+# call-site contract of als._optimize_core at the shape level (proved by als._optimize_core.values.* / .slices:
+# 'result-has-the-shape-of-the-core', no exception under these preconditions)
+
+def call_optimize_core(ex, st, args, kwargs, node):
+    if len(args) != 5 or not set(kwargs) <= {'lamb', 'w', 'update_sol'}:
+        raise M.Unsupported('_optimize_core: only the call (Q, i, y_trn, Yl, Yr, lamb=, w=, update_sol=) has a call-site contract')
+    raw = list(args)
+    Q, i, y, Yl, Yr = [X._unopt(ex, st, a, node, '_optimize_core-argument') for a in args]
+    w = st.deref(kwargs.get('w', NONE))
+    if not (isinstance(Q, VArr) and Q.ndim == 3 and isinstance(i, VArr) and i.ndim == 1 and isinstance(y, VArr) and y.ndim == 1
+            and isinstance(Yl, VArr) and Yl.ndim == 2 and isinstance(Yr, VArr) and Yr.ndim == 2 and (w is NONE or (isinstance(w, VArr) and w.ndim == 1))):
+        raise M.Unsupported('_optimize_core: arguments are not (core, index vector, value vector, two interface matrices[, weights])')
+    ms = Z(i.shape[0])
+    ex.oblige(st, 'call-pre', '_optimize_core: non-empty core', z3.And(Z(Q.shape[0]) >= 1, Z(Q.shape[1]) >= 1, Z(Q.shape[2]) >= 1), node)
+    ex.oblige(st, 'call-pre', '_optimize_core: one value and one row / column of the interfaces per sample',
+              z3.And(Z(y.shape[0]) == ms, Z(Yl.shape[0]) == ms, Z(Yr.shape[1]) == ms), node)
+    ex.oblige(st, 'call-pre', '_optimize_core: interfaces fit the ranks of the core',
+              z3.And(Z(Yl.shape[1]) == Z(Q.shape[0]), Z(Yr.shape[0]) == Z(Q.shape[2])), node)
+    if w is not NONE:
+        ex.oblige(st, 'call-pre', '_optimize_core: one weight per sample', Z(w.shape[0]) == ms, node)
+    g = ex.fresh('Gopt', T.Core)
+    st.assume(T.d0(g) == Z(Q.shape[0]), T.d1(g) == Z(Q.shape[1]), T.d2(g) == Z(Q.shape[2]))
+    st.ghost['oc_calls'] = st.ghost.get('oc_calls', []) + [
+        dict(Q=Q, i=i, y=y, Yl=raw[3], Yr=raw[4], lamb=kwargs.get('lamb'), w=kwargs.get('w', NONE), u=kwargs.get('update_sol', NONE), ret=g)]
+    return M.mk_core(g)
+
+
+def _code(raw):
+    """The element code behind an element of a list of (optional) arrays (models._optarr_wrap)."""
+    if isinstance(raw, VOpt) and isinstance(raw.val, VArr) and raw.val.ndim == 2:
+        t = raw.val.shape[0]
+        if z3.is_app(t) and t.decl().eq(M.OROWS):
+            return t.arg(0)
+    raise M.ContractMismatch('als: an interface operand is not an element of the lists Yl / Yr')
+
+
+def _core_of(v):
+    """The core term behind G[:, i, :] (a gather keeps the outer dimensions d0(G), d2(G))."""
+    if isinstance(v, VArr) and v.ndim == 3:
+        t = v.shape[0]
+        if z3.is_app(t) and t.decl().eq(T.d0):
+            return t.arg(0)
+    raise M.ContractMismatch('als: a contraction operand is not a gather G[:, i, :] of a core')
+
+
+# ----------------------------------------------------------------------------------------------
+# als.als, constant rank (r=None, allow_swap=False): control + shape tier.
+#
+# From C07 / C10 / C11:
+#   * slice coverage: ValueError iff allow_skip_cores is False and some slice has no sample (stated with `covers`; the code counts
+#     distinct values - equivalent for indices inside the mode bounds, axiom 'cover'[0] = pigeonhole, spot-checked), raised
+#     before anything is fitted; on the raising path an explicit uncovered value is exhibited;
+#   * the result is the working copy (never Y0), has d cores with the shape AND RANKS of Y0 (so it is well formed); Y0, I_trn,
+#     y_trn keep their values;
+#   * info is reset in this call before anything is read from it (the dict may be the shared default: it starts with a stale
+#     'rearrange' key and nothing else, a read of any other key before its write would fail `key-present`); at return it holds
+#     exactly e, e_vld, nswp, stop, r, t; nswp = number of executed sweeps; r, e, e_vld are the values of the returned tensor
+#     (e relative to the copy taken at the start of the last sweep);
+#   * stop is one of nswp / e / e_vld / cb, consistent with utils._info_appr; a reason that was already satisfied BEFORE the first
+#     sweep (nswp <= 0, or the validation error of Y0 within e_vld) does not prevent the first sweep: the function then returns
+#     after exactly one sweep with that reason (so `stop == 'e_vld'` is justified by the final OR by the initial tensor) - stated
+#     as it is; cb returning True stops right after that sweep;
+#   * sweep order: pre-sweep right-to-left builds Yr; every sweep goes left-to-right over cores 0..d-2 then right-to-left over
+#     d-1..1; each step updates exactly core k from (Y[k], column k of I_trn, y_trn, Yl[k], Yr[k], lamb, w, update_sol) and then
+#     writes the interface Yl[k+1] / Yr[k-1] from the neighbouring interface and the NEW core; all contraction shapes agree.
+# NOT covered: values of the interfaces / cores (hence descent, restart equivalence, order independence: bounded suite), the
+# experimental allow_swap mode, floating point.
+
+from contracts import cross as C
+from ttvc.symex import strcode
+
+IM = z3.ArraySort(z3.IntSort(), X.IA)
+AXA = T.axioms('shape', 'cover')
+ALS_REASONS = ('nswp', 'e', 'e_vld', 'cb')
+
+
+def _als_setup(U, st, adaptive, with_cb, with_w, with_u):
+    Y0, A0, d = S.tt_param(st, 'Y0', z3.Int('d'))
+    m = z3.Int('m')
+    Icols = z3.Const('I_trn', IM)
+    yt, wt = z3.Const('y_trn', T.Mat), z3.Const('w', T.Mat)
+    env = dict(Y0=Y0, A0=A0, d=d, m=m, Icols=Icols, yt=yt, wt=wt,
+               I_trn=VArr((m, d), Icols, 'icols', 'i'), y_trn=X.cvec(yt, m), w=X.cvec(wt, m) if with_w else NONE,
+               nswp=S.opt_int('nswp'), e=S.opt_real('e'), e_vld=S.opt_real('e_vld'), I_vld=C.opt_arr('I_vld'), y_vld=C.opt_arr('y_vld'),
+               lamb=S.opt_real('lamb'), skip=z3.Bool('allow_skip_cores'), update_sol=True if with_u else NONE,
+               info=st.alloc(VRec({'rearrange': VOpaque('stale key of an earlier call')})))
+    cb_log = []
+
+    def cb_handler(ex, s, args, kwargs, node):
+        # A-CB: the callback neither writes nor retains its arguments; it returns an arbitrary value
+        r_ = ex.fresh_bool('cb_is_True')
+        s.ghost['cb_true'] = r_
+        s.ghost['cb_args'] = list(args)
+        return r_
+    env['cb'] = VFunc('cb', cb_handler) if with_cb else NONE
+    return env
+
+
+def _covers_all(env):
+    k = z3.Int('k!cv')
+    return z3.ForAll([k], z3.Implies(z3.And(0 <= k, k < env['d']), X.covers(env['Icols'][k], env['m'], T.d1(env['A0'][k]))),
+                     patterns=[env['Icols'][k]])
+
+
+def _accepted_posts(U, p, env, skip):
+    """On an accepting path without allow_skip_cores: every mode index of every core is carried by a sample (explicit witness occ)."""
+    kc, jc = z3.Int('k!acc'), z3.Int('j!acc')                  # arbitrary core / mode index (free constants)
+    col, nk, m = env['Icols'][kc], T.d1(env['A0'][kc]), env['m']
+    lem = z3.Implies(z3.And(z3.Not(skip), 0 <= kc, kc < env['d']), X.covers(col, m, nk))
+    U.raise_iff('accepted-without-skipping-means-every-slice-is-covered', p, lem, axioms=AXA, mode='ematch')
+    U.raise_iff('a-sample-is-exhibited-for-every-slice', p,
+                z3.Implies(z3.And(z3.Not(skip), 0 <= kc, kc < env['d'], 0 <= jc, jc < nk),
+                           z3.And(0 <= X.occ(col, m, jc), X.occ(col, m, jc) < m, col[X.occ(col, m, jc)] == jc)),
+                axioms=AXA, mode='ematch', extra=[lem])
+
+
+def _als_const_unit(U, with_cb, with_w, with_u):
+    fn = U.func('als', 'als')
+    st = U.state()
+    env = _als_setup(U, st, False, with_cb, with_w, with_u)
+    Y0, A0, d, m, Icols, yt, info = env['Y0'], env['A0'], env['d'], env['m'], env['Icols'], env['yt'], env['info']
+    nswp, e, e_vld, lamb, skip = env['nswp'], env['e'], env['e_vld'], env['lamb'], env['skip']
+    k_, t_ = z3.Int('k!al'), z3.Int('t!al')
+
+    def same_shape(arr):
+        return z3.ForAll([k_], z3.Implies(z3.And(0 <= k_, k_ < d), z3.And(T.d0(arr[k_]) == T.d0(A0[k_]), T.d1(arr[k_]) == T.d1(A0[k_]),
+                                                                          T.d2(arr[k_]) == T.d2(A0[k_]))), patterns=[arr[k_]])
+
+    def need_wf(ex, s, Yv, node, who):
+        Ys = C._tt_of(s, Yv)
+        ex.oblige(s, 'call-pre', f'{who}: argument is a well-formed TT-tensor with the shape of Y0',
+                  z3.And(Ys.n == d, T.wf(Ys.arr, d), same_shape(Ys.arr)), node)
+        return Ys
+
+    def c_erank(ex, s, a, kw, node):
+        Ys = need_wf(ex, s, a[0], node, 'erank')
+        return C.erank_f(Ys.arr, Ys.n)
+
+    def c_acc(ex, s, a, kw, node):
+        Ys, Yo = need_wf(ex, s, a[0], node, 'accuracy'), need_wf(ex, s, a[1], node, 'accuracy (previous sweep)')
+        return C.acc_f(Ys.arr, Ys.n, Yo.arr)
+
+    def c_aod(ex, s, a, kw, node):
+        Ys = need_wf(ex, s, a[0], node, 'accuracy_on_data')
+        return C.aod_f(Ys.arr, Ys.n)
+
+    callees = {'props.erank': c_erank, 'act_two.accuracy': c_acc, 'data.accuracy_on_data': c_aod,
+               'als._optimize_core': call_optimize_core, 'np.unique': X.m_unique_als}
+
+    def fields(s):
+        return s.heap[info.oid].fields
+
+    def lists(s):
+        Y, Yl, Yr = [s.deref(s.vars[x]) for x in ('Y', 'Yl', 'Yr')]
+        if not (isinstance(Y, VSeq) and Y.tag == 'core' and isinstance(Yl, VSeq) and Yl.tag == 'optarr' and isinstance(Yr, VSeq) and Yr.tag == 'optarr'):
+            raise M.ContractMismatch('als(): Y / Yl / Yr are no longer the list of cores / the lists of interface matrices')
+        return Y, Yl, Yr
+
+    def iface(Yl, Yr):
+        return [('left-interfaces-fit', z3.And(Yl.n == d, z3.ForAll([k_], z3.Implies(z3.And(0 <= k_, k_ < d), z3.And(
+                    Yl.arr[k_] != 0, M.OROWS(Yl.arr[k_]) == m, M.OCOLS(Yl.arr[k_]) == T.d0(A0[k_]))), patterns=[Yl.arr[k_]]))),
+                ('right-interfaces-fit', z3.And(Yr.n == d, z3.ForAll([k_], z3.Implies(z3.And(0 <= k_, k_ < d), z3.And(
+                    Yr.arr[k_] != 0, M.OROWS(Yr.arr[k_]) == T.d2(A0[k_]), M.OCOLS(Yr.arr[k_]) == m)), patterns=[Yr.arr[k_]])))]
+
+    def common(ex, s):
+        Y, Yl, Yr = lists(s)
+        f = fields(s)
+        stop = S.as_opt(f['stop'])
+        return iface(Yl, Yr) + [
+            ('info-holds-exactly-the-documented-keys-no-stale-ones', z3.BoolVal(set(f) == {'e', 'e_vld', 'nswp', 'stop', 'r', 't'})),
+            ('tensor-keeps-the-shape-and-ranks-of-Y0', z3.And(Y.n == d, same_shape(Y.arr))),
+            ('result-list-is-a-copy', z3.BoolVal(s.vars['Y'].oid != Y0.oid and s.heap[Y0.oid].arr is A0)),
+            ('inputs-keep-their-values', z3.BoolVal(getattr(s.vars['I_trn'], 't', None) is Icols and getattr(s.vars['y_trn'], 't', None) is yt)),
+            ('sweep-counter', f['nswp'] == s.ghost['_j2']),
+            ('nswp-not-yet-reached-while-running', z3.Implies(stop.isnone, z3.Or(nswp.isnone, f['nswp'] < nswp.val))),
+            ('a-pending-reason-comes-from-before-the-first-sweep',
+             z3.Or(stop.isnone, z3.And(s.ghost['_j2'] == 0, S.stop_in(f['stop'], ('e_vld', 'nswp'))))),
+            ('a-pending-nswp-reason-is-justified', z3.Implies(S.stop_is(f['stop'], 'nswp'), z3.And(z3.Not(nswp.isnone), nswp.val <= 0))),
+            ('a-pending-e_vld-reason-is-justified-by-the-initial-tensor',
+             z3.Implies(S.stop_is(f['stop'], 'e_vld'), z3.And(z3.Not(e_vld.isnone), C.aod_f(A0, d) >= 0, C.aod_f(A0, d) <= e_vld.val))),
+            ('no-swap-in-constant-rank-mode', z3.BoolVal(s.vars.get('was_swap', False) is False))]
+
+    def inv_cover(ex, s, j):
+        return [('slices-checked-so-far-are-covered',
+                 z3.ForAll([t_], z3.Implies(z3.And(0 <= t_, t_ < j), X.ndist(Icols[t_], m) == T.d1(A0[t_])), patterns=[Icols[t_]]))]
+
+    def inv_pre(ex, s, j):
+        return []
+
+    def inv_while(ex, s, j):
+        return common(ex, s)
+
+    def inv_sweep(ex, s, j):
+        return common(ex, s)
+
+    def havoc_hook(ex, h, pre, j):
+        # constant-rank mode never rebinds I_trn / was_swap (the statements that do are in the adaptive branch): the values of
+        # before the loop are kept here, and every body end proves that the body did not rebind them
+        for nm in ('I_trn', 'was_swap'):
+            if nm in pre.vars:
+                h.vars[nm] = pre.vars[nm]
+        h.ghost['body0'] = dict(Y=h.deref(h.vars['Y']).arr if 'Y' in h.vars else None, n_oc=len(h.ghost.get('oc_calls', [])),
+                                n_ct=len(h.ghost.get('contracts', [])), I_trn=h.vars.get('I_trn'), was_swap=h.vars.get('was_swap'))
+
+    def not_rebound(ex, s):
+        b0 = s.ghost['body0']
+        ex.oblige(s, 'post', 'constant-rank-sweeps-do-not-rebind-I_trn-or-was_swap',
+                  z3.BoolVal(s.vars.get('I_trn') is b0['I_trn'] and s.vars.get('was_swap') is b0['was_swap']), None, assume=False)
+
+    def step_checks(ex, s, o, j, direction):
+        """One step of a half sweep: exactly one core update and one interface update, on the right operands, in this order."""
+        if o.kind != 'normal':
+            return
+        not_rebound(ex, s)
+        b0 = s.ghost['body0']
+        ocs, cts = s.ghost.get('oc_calls', [])[b0['n_oc']:], s.ghost.get('contracts', [])[b0['n_ct']:]
+        ob = lambda lbl, g: ex.oblige(s, 'post', lbl, g, None, assume=False)
+        pre_sweep = direction == 'pre'
+        k = j if direction == 'ltr' else d - 1 - j
+        ob(f'{direction}: one-core-update-and-one-interface-update-per-step', z3.BoolVal(len(ocs) == (0 if pre_sweep else 1) and len(cts) == 1))
+        if len(ocs) != (0 if pre_sweep else 1) or len(cts) != 1:
+            return
+        Y, Yl, Yr = lists(s)
+        ev = cts[0]
+        if not pre_sweep:
+            c = ocs[0]
+            ob(f'{direction}: the-updated-core-is-core-k', c['Q'].t == b0['Y'][k] if c['Q'].t is not None else False)
+            ob(f'{direction}: the-samples-are-indexed-by-column-k', (c['i'].t == Icols[k]) if getattr(c['i'], 'tag', None) == 'ivec' else False)
+            ob(f'{direction}: the-interfaces-of-core-k-are-used', z3.And(_code(c['Yl']) == Yl.arr[k], _code(c['Yr']) == Yr.arr[k]))
+            ob(f'{direction}: data-regularisation-weights-and-update-flag-are-passed-through',
+               z3.BoolVal(getattr(c['y'], 't', None) is yt and c['lamb'] is lamb and c['w'] is env['w'] and c['u'] is env['update_sol']))
+            ob(f'{direction}: only-core-k-is-replaced-by-the-result',
+               z3.And(Y.arr[k] == c['ret'], z3.ForAll([t_], z3.Implies(t_ != k, Y.arr[t_] == b0['Y'][t_]), patterns=[Y.arr[t_]])))
+        want = {'pre': 'riq,qi->ri', 'ltr': 'jk,kjl->jl', 'rtl': 'ijk,kj->ij'}[direction]
+        ob(f'{direction}: the-interface-contraction-is-the-documented-one', z3.BoolVal(ev['spec'].replace(' ', '') == want and len(ev['raw']) == 2))
+        if ev['spec'].replace(' ', '') != want or len(ev['raw']) != 2 or ev['outraw'] is None:
+            ob(f'{direction}: the-interface-is-written-in-place', z3.BoolVal(ev['outraw'] is not None))
+            return
+        if direction == 'ltr':
+            old_if, core_op, nxt, lst = _code(ev['raw'][0]), _core_of(ev['ops'][1]), k + 1, Yl
+        else:
+            old_if, core_op, nxt, lst = _code(ev['raw'][1]), _core_of(ev['ops'][0]), k - 1, Yr
+        ob(f'{direction}: the-next-interface-is-built-from-the-interface-of-core-k-and-the-new-core-k',
+           z3.And(old_if == lst.arr[k], core_op == Y.arr[k], _code(ev['outraw']) == lst.arr[nxt]))
+
+    def sweep_end(ex, s, o, j):
+        not_rebound(ex, s)
+        if with_cb and o.kind == 'normal':          # the while loop goes on: the callback of this sweep did not return True
+            ex.oblige(s, 'post', 'callback-True-stops-right-after-that-sweep', z3.Not(s.ghost.get('cb_true', z3.BoolVal(True))), None, assume=False)
+
+    loops = {0: {'inv': inv_cover},
+             1: {'inv': inv_pre, 'havoc_hook': havoc_hook, 'body_end': lambda ex, s, o, j: step_checks(ex, s, o, j, 'pre')},
+             2: {'inv': inv_while, 'havoc_hook': havoc_hook, 'body_end': sweep_end},
+             3: {'inv': inv_sweep, 'havoc_hook': havoc_hook, 'body_end': lambda ex, s, o, j: step_checks(ex, s, o, j, 'ltr')},
+             4: {'inv': inv_sweep, 'havoc_hook': havoc_hook, 'body_end': lambda ex, s, o, j: step_checks(ex, s, o, j, 'rtl')}}
+    ex = U.executor(fn, loops=loops, callees=callees, axioms=AXA)
+    if ex.nloops != 5:
+        raise M.ContractMismatch(f'als(): expected 5 loops (coverage check, pre-sweep, while, two half sweeps), found {ex.nloops}')
+    ex.als = True
+    ex.asserts = True
+    ex.mode = 'ematch'
+    st.vars.update(I_trn=env['I_trn'], y_trn=env['y_trn'], Y0=Y0, nswp=nswp, e=e, info=info, I_vld=env['I_vld'], y_vld=env['y_vld'],
+                   e_vld=e_vld, r=NONE, r_add=z3.Int('r_add'), e_adap=z3.Real('e_adap'), lamb=lamb, w=env['w'], cb=env['cb'],
+                   swap_tol=z3.Int('swap_tol'), allow_swap=False, allow_skip_cores=skip, use_stab=False, log=False,
+                   update_sol=env['update_sol'])
+    pre = [T.wf(A0, d), m >= 0,
+           z3.ForAll([k_], z3.Implies(z3.And(0 <= k_, k_ < d), X.inrng(Icols[k_], m, T.d1(A0[k_]))), patterns=[Icols[k_]])]
+    res = U.run(ex, st, pre=pre)
+    U.cover('precondition-satisfiable', U.pre, axioms=AXA)
+    bad = z3.And(z3.Not(skip), z3.Not(_covers_all(env)))
+    U.cover('rejecting-reachable', U.pre + [bad], axioms=AXA)
+    U.cover('accepting-reachable', U.pre + [z3.Not(bad)], axioms=AXA)
+    nret = nraise = 0
+    s_ = z3.Int('s!al')
+    for p, o in res:
+        if o.kind == 'raise':
+            nraise += 1
+            U.raise_iff('raises-only-if-a-slice-has-no-sample-and-skipping-is-not-allowed', p, bad, axioms=AXA, mode='ematch')
+            U.raise_iff('raises-ValueError', p, z3.BoolVal(o.exc == 'ValueError'))
+            kk = p.ghost.get('_j0')
+            col, nk = Icols[kk], T.d1(A0[kk])
+            U.raise_iff('an-uncovered-slice-is-exhibited', p,
+                        z3.And(0 <= kk, kk < d, z3.Not(X.covers(col, m, nk)), 0 <= X.miss(col, m, nk), X.miss(col, m, nk) < nk),
+                        axioms=AXA, mode='ematch')
+            U.raise_iff('no-sample-carries-the-exhibited-index', p,
+                        z3.Implies(z3.And(0 <= s_, s_ < m), col[s_] != X.miss(col, m, nk)), axioms=AXA, mode='ematch')
+            U.raise_iff('raised-before-anything-is-fitted', p, z3.BoolVal(not p.ghost.get('oc_calls') and not p.ghost.get('contracts')))
+            continue
+        if o.kind != 'return':
+            U.post('only-returns-or-the-coverage-error', p, False, axioms=AXA)
+            continue
+        nret += 1
+        f = fields(p)
+        Ys = p.deref(o.value)
+        ok = isinstance(o.value, VRef) and isinstance(Ys, VSeq) and Ys.tag == 'core'
+        U.raise_iff('accepts-only-covered-slices-or-allowed-skipping', p, z3.Not(bad), axioms=AXA, mode='ematch')
+        _accepted_posts(U, p, env, skip)
+        if not ok:
+            U.post('returns-a-list-of-cores', p, False)
+            continue
+        jj = p.ghost['_j2']
+        U.post('returns-the-working-copy-not-the-initial-tensor', p, z3.BoolVal(o.value.oid != Y0.oid and p.heap[Y0.oid].arr is A0))
+        U.post('inputs-keep-their-values', p, z3.BoolVal(p.heap[Y0.oid].arr is A0 and getattr(p.vars['I_trn'], 't', None) is Icols
+                                                          and getattr(p.vars['y_trn'], 't', None) is yt))
+        U.post('result-has-the-shape-and-ranks-of-Y0', p, z3.And(Ys.n == d, same_shape(Ys.arr)), axioms=AXA, mode='ematch')
+        U.post('result-is-a-well-formed-TT-tensor', p, T.wf(Ys.arr, d), axioms=AXA, mode='ematch')
+        U.post('info-holds-exactly-the-documented-keys-no-stale-ones', p, z3.BoolVal(set(f) == {'e', 'e_vld', 'nswp', 'stop', 'r', 't'}))
+        U.post('exactly-one-documented-stop-reason', p, S.stop_in(f['stop'], ALS_REASONS), axioms=AXA)
+        U.post('info-nswp-is-the-number-of-executed-sweeps', p, z3.And(f['nswp'] == jj + 1, f['nswp'] >= 1), axioms=AXA)
+        U.post('reported-rank-is-that-of-the-returned-tensor', p, f['r'] == C.erank_f(Ys.arr, Ys.n), axioms=AXA)
+        U.post('reported-validation-error-is-that-of-the-returned-tensor', p, f['e_vld'] == C.aod_f(Ys.arr, Ys.n), axioms=AXA)
+        Yold = p.deref(p.vars['Yold'])
+        U.post('reported-convergence-is-relative-to-the-copy-taken-at-sweep-start', p, f['e'] == C.acc_f(Ys.arr, Ys.n, Yold.arr), axioms=AXA)
+        U.post('stop-e-only-if-reported-value-within-threshold', p,
+               z3.Implies(S.stop_is(f['stop'], 'e'), z3.And(z3.Not(e.isnone), f['e'] >= 0, f['e'] <= e.val)), axioms=AXA)
+        U.post('stop-e_vld-only-if-final-or-initial-validation-error-within-threshold', p,
+               z3.Implies(S.stop_is(f['stop'], 'e_vld'),
+                          z3.And(z3.Not(e_vld.isnone),
+                                 z3.Or(z3.And(f['e_vld'] >= 0, f['e_vld'] <= e_vld.val),
+                                       z3.And(f['nswp'] == 1, C.aod_f(A0, d) >= 0, C.aod_f(A0, d) <= e_vld.val)))), axioms=AXA)
+        U.post('stop-nswp-only-if-requested-and-reached', p,
+               z3.Implies(S.stop_is(f['stop'], 'nswp'), z3.And(z3.Not(nswp.isnone), f['nswp'] >= nswp.val)), axioms=AXA)
+        U.post('stop-nswp-after-exactly-nswp-sweeps', p,
+               z3.Implies(z3.And(S.stop_is(f['stop'], 'nswp'), nswp.val >= 1), f['nswp'] == nswp.val), axioms=AXA)
+        U.post('a-reason-satisfied-before-the-first-sweep-still-costs-one-sweep', p,
+               z3.Implies(z3.And(z3.Not(nswp.isnone), nswp.val <= 0), z3.And(f['nswp'] == 1, S.stop_in(f['stop'], ('nswp', 'e_vld')))), axioms=AXA)
+        cb_true = p.ghost.get('cb_true', z3.BoolVal(False))
+        if with_cb:
+            U.post('stop-cb-only-right-after-the-callback-returned-True', p, z3.Implies(S.stop_is(f['stop'], 'cb'), cb_true), axioms=AXA)
+            a = p.ghost.get('cb_args', [])
+            opts = p.deref(a[2]) if len(a) == 3 else None
+            U.post('callback-receives-the-current-tensor-info-and-interfaces', p,
+                   z3.BoolVal(len(a) == 3 and isinstance(a[0], VRef) and a[0].oid == o.value.oid and isinstance(a[1], VRef) and a[1].oid == info.oid
+                              and isinstance(opts, VRec) and set(opts.fields) == {'Yold', 'Yl', 'Yr'}))
+        else:
+            U.post('stop-cb-needs-a-callback', p, z3.Not(S.stop_is(f['stop'], 'cb')), axioms=AXA)
+        tr_ = p.trace
+        last = max(i for i, x in enumerate(tr_) if x == 'loop2:body')
+        tail = tr_[last:]
+        U.post('a-sweep-goes-left-to-right-then-right-to-left', p,
+               z3.BoolVal('loop3:exit' in tail and 'loop4:exit' in tail and tail.index('loop3:exit') < tail.index('loop4:exit')))
+        U.post('the-pre-sweep-and-each-half-sweep-visit-d-1-cores', p,
+               z3.And(p.ghost['_j1'] == d - 1, p.ghost['_j3'] == d - 1, p.ghost['_j4'] == d - 1), axioms=AXA)
+        U.canary('canary-always-stops-by-nswp', p, S.stop_is(f['stop'], 'nswp'), axioms=AXA)
+        U.canary('canary-more-than-one-sweep-impossible', p, f['nswp'] == 1, axioms=AXA)
+    U.post('return-and-raise-sites-reached', U.pre, z3.BoolVal(nret >= 1 and nraise >= 1))
+
+
+for _cb in (False, True):
+    def _mk(cb=_cb):
+        @unit(f'als.als.const.{"cb" if cb else "nocb"}', props=('C07', 'C10', 'C11'))
+        def u_(U):
+            _als_const_unit(U, cb, cb, cb)           # the callback case also carries weights and update_sol
+    _mk()
+
+
+# ----------------------------------------------------------------------------------------------
+# als.als head in the rank-adaptive mode (r given): the slice-coverage check sees the ORTHOGONALISED working copy - its mode sizes
+# are those of Y0 (contract of orthogonalize), so the check means the same as in the constant-rank mode.  Also: the assert that
+# forbids update_sol together with a rank cap.
+
+def _is_head_end(stmt):
+    return isinstance(stmt, _ast.Assign) and isinstance(stmt.targets[0], _ast.Subscript) and _ast.unparse(stmt.targets[0]) == "info['e_vld']"
+
+
+def _als_validate_adaptive(U, with_u):
+    fn = U.func('als', 'als')
+    if not any(_is_head_end(s_) for s_ in fn.body):
+        raise M.ContractMismatch("als(): the statement `info['e_vld'] = ...` that ends the validation head is gone")
+    st = U.state()
+    env = _als_setup(U, st, True, False, False, with_u)
+    Y0, A0, d, m, Icols, info, skip = env['Y0'], env['A0'], env['d'], env['m'], env['Icols'], env['info'], env['skip']
+    k_, t_, s_ = z3.Int('k!av'), z3.Int('t!av'), z3.Int('s!av')
+    r = z3.Int('r')
+
+    def c_erank(ex, s, a, kw, node):
+        Ys = C._tt_of(s, a[0])
+        ex.oblige(s, 'call-pre', 'erank: argument is a well-formed TT-tensor', z3.And(Ys.n == d, T.wf(Ys.arr, d)), node)
+        return C.erank_f(Ys.arr, Ys.n)
+
+    def inv_cover(ex, s, j):
+        return [('slices-checked-so-far-are-covered',
+                 z3.ForAll([t_], z3.Implies(z3.And(0 <= t_, t_ < j), X.ndist(Icols[t_], m) == T.d1(A0[t_])), patterns=[Icols[t_]]))]
+
+    ex = U.executor(fn, loops={0: {'inv': inv_cover}}, callees={'props.erank': c_erank, 'np.unique': X.m_unique_als}, axioms=AXA,
+                    stop_at=_is_head_end)
+    ex.als = True
+    ex.asserts = True
+    ex.mode = 'ematch'
+    st.vars.update(I_trn=env['I_trn'], y_trn=env['y_trn'], Y0=Y0, nswp=env['nswp'], e=env['e'], info=info, I_vld=env['I_vld'],
+                   y_vld=env['y_vld'], e_vld=env['e_vld'], r=r, r_add=z3.Int('r_add'), e_adap=z3.Real('e_adap'), lamb=env['lamb'], w=NONE,
+                   cb=NONE, swap_tol=z3.Int('swap_tol'), allow_swap=False, allow_skip_cores=skip, use_stab=False, log=False,
+                   update_sol=env['update_sol'])
+    pre = [T.wf(A0, d), m >= 0, r >= 1,
+           z3.ForAll([k_], z3.Implies(z3.And(0 <= k_, k_ < d), X.inrng(Icols[k_], m, T.d1(A0[k_]))), patterns=[Icols[k_]])]
+    res = U.run(ex, st, pre=pre)
+    U.cover('precondition-satisfiable', U.pre, axioms=AXA)
+    bad = z3.And(z3.Not(skip), z3.Not(_covers_all(env)))
+    kinds = set()
+    for p, o in res:
+        kinds.add((o.kind, o.exc))
+        if with_u:
+            # update_sol together with a rank cap is rejected by the assert before anything else happens
+            U.raise_iff('update_sol-with-a-rank-cap-is-rejected-by-the-assert', p, z3.BoolVal(o.kind == 'raise' and o.exc == 'AssertionError'))
+            U.raise_iff('rejected-before-info-is-touched', p, z3.BoolVal(set(p.heap[info.oid].fields) == {'rearrange'}))
+            continue
+        if o.kind == 'raise':
+            U.raise_iff('raises-only-if-a-slice-has-no-sample-and-skipping-is-not-allowed', p, bad, axioms=AXA, mode='ematch')
+            U.raise_iff('raises-ValueError', p, z3.BoolVal(o.exc == 'ValueError'))
+            kk = p.ghost.get('_j0')
+            col, nk = Icols[kk], T.d1(A0[kk])
+            U.raise_iff('an-uncovered-slice-is-exhibited', p,
+                        z3.And(0 <= kk, kk < d, z3.Not(X.covers(col, m, nk)), 0 <= X.miss(col, m, nk), X.miss(col, m, nk) < nk),
+                        axioms=AXA, mode='ematch')
+            U.raise_iff('no-sample-carries-the-exhibited-index', p,
+                        z3.Implies(z3.And(0 <= s_, s_ < m), col[s_] != X.miss(col, m, nk)), axioms=AXA, mode='ematch')
+        elif o.kind == 'stop':
+            U.raise_iff('accepts-only-covered-slices-or-allowed-skipping', p, z3.Not(bad), axioms=AXA, mode='ematch')
+            _accepted_posts(U, p, env, skip)
+            Ys = p.deref(p.vars['Y'])
+            U.raise_iff('the-working-copy-is-the-orthogonalised-copy-not-Y0', p,
+                        z3.BoolVal(isinstance(Ys, VSeq) and p.vars['Y'].oid != Y0.oid and p.heap[Y0.oid].arr is A0 and Ys.arr is p.ghost.get('orth_result')))
+            U.raise_iff('info-is-reset-before-the-fit', p, z3.BoolVal(set(p.heap[info.oid].fields) == {'e', 'e_vld', 'nswp', 'stop', 'r'}))
+        else:
+            U.post('head-ends-at-the-first-validation-error', p, False)
+    if with_u:
+        U.post('only-the-assertion-path', U.pre, z3.BoolVal(kinds == {('raise', 'AssertionError')}))
+    else:
+        U.post('accepting-and-rejecting-paths-reached', U.pre, z3.BoolVal(kinds == {('raise', 'ValueError'), ('stop', None)}))
+        U.canary('canary-never-rejects', U.pre, z3.Not(bad), axioms=AXA)
+
+
+@unit('als.als.validate.adaptive', props=('C07',))
+def u_als_validate_adaptive(U):
+    _als_validate_adaptive(U, False)
+
+
+@unit('als.als.validate.adaptive.update_sol', props=('C07',))
+def u_als_validate_adaptive_u(U):
+    _als_validate_adaptive(U, True)
+
+
+# ----------------------------------------------------------------------------------------------
+# als._optimize_core_adaptive - shape tier (allow_swap=None): two neighbouring cores are merged block by block (one least-squares
+# problem per pair (k1, k2) of mode indices that some sample carries) and split again by a truncated SVD with the rank cap r.
+#
+#   * every block solve gets consistent shapes: A is (#samples of the pair) x (r1 * r3), b / w have one entry per such sample, the
+#     solution is folded to (r1, r3) and stored into Q[:, k1, k2, :] of the (r1, n1, n2, r3) array;
+#   * the index caches: with an empty cache both mask tables are built (one mask per mode index) and left in the cache under
+#     'i1' / 'i2'; tables found in the cache are reused and not rebuilt;
+#   * result: G1 of shape (r1, n1, q), G2 of shape (q, n2, r3) with 1 <= q <= max(r, 1): outer ranks and mode sizes kept, new
+#     bond within the cap - stated on the paths where the merged block is not identically zero.  On the other path the contract of
+#     matrix_skeleton(rel=True) (which divides by the largest singular value) does not apply and NO claim is made here.
+# NOT covered: values; that every block of Q is written before the SVD - it is NOT: blocks of pairs (k1, k2) without a sample keep
+# the uninitialised contents of np.empty (reported as a finding, see the final notes of this file); the experimental allow_swap branch.
+
+from ttvc import vec as V
+
+AXD = T.axioms('shape', 'mulI')
+
+
+def _adaptive_unit(U, ltr, cache_kind, with_w):
+    fn = U.func('als', '_optimize_core_adaptive')
+    st = U.state()
+    Q1, q1 = S.core_param('Q1')
+    Q2, q2 = S.core_param('Q2')
+    r1, n1, r2, n2, r3 = T.d0(q1), T.d1(q1), T.d2(q1), T.d1(q2), T.d2(q2)
+    ms, r = z3.Int('ms'), z3.Int('r')
+    i1, i2 = VArr((ms,), z3.Const('i1', X.IA), 'ivec', 'i'), VArr((ms,), z3.Const('i2', X.IA), 'ivec', 'i')
+    y, Yl, Yr = VArr((ms,), None, None), VArr((ms, r1), None, None), VArr((r3, ms), None, None)
+    w = VArr((ms,), None, None) if with_w else NONE
+    maps = {}
+    if cache_kind == 'none':
+        cache = NONE
+    else:
+        fields = {}
+        for key in ('i1', 'i2'):
+            if key in cache_kind:
+                maps[key] = st.alloc(X.VMaskMap(key, ms))
+                fields[key] = maps[key]
+        cache = st.alloc(VRec(fields))
+    nz_log = []
+
+    def c_skeleton(ex, s, args, kwargs, node):
+        # the contract of svd.matrix_skeleton (units svd.matrix_skeleton.rel.*) applies to a NON-ZERO matrix; on the other path
+        # nothing is known about the factors
+        A = s.deref(args[0])
+        if not (isinstance(A, VArr) and A.ndim == 2 and A.tag == 'mat' and A.t is not None):
+            raise M.ContractMismatch('_optimize_core_adaptive: matrix_skeleton is not called with the unfolded merged core')
+        nz = V.nonzero(A.t)
+        s.ghost['Qs'] = A
+        if ex.decide(s, nz, node):
+            return M.CALLEES['svd.matrix_skeleton'](ex, s, args, kwargs, node)
+        s.ghost['zero_block'] = True
+        return VTuple([VOpaque('V1 of a zero block'), VOpaque('V2 of a zero block')])
+
+    def q_shape(s):
+        Q = s.vars.get('Q')
+        if not (isinstance(Q, VArr) and Q.ndim == 4):
+            raise M.ContractMismatch('_optimize_core_adaptive: Q is no longer the 4-D merged core')
+        return [('merged-core-keeps-its-shape', z3.And(Z(Q.shape[0]) == r1, Z(Q.shape[1]) == n1, Z(Q.shape[2]) == n2, Z(Q.shape[3]) == r3))]
+
+    def inv_none(ex, s, j):
+        return []
+
+    def inv_blocks(ex, s, j):
+        return q_shape(s)
+
+    def block_end(ex, s, o, j):
+        if o.kind != 'normal':
+            return
+        calls = s.ghost.get('lstsq_calls', [])
+        ex.oblige(s, 'post', 'one-solve-per-visited-pair', z3.BoolVal(len(calls) == 1 and len(s.ghost.get('block_stores', [])) == 1), None, assume=False)
+        if len(calls) == 1:
+            c = calls[0]
+            ex.oblige(s, 'post', 'regularisation-and-weights-reach-the-block-solve',
+                      z3.BoolVal(c['lamb'] is lamb and ((c['w'] is NONE) == (not with_w)) and c['u'] is NONE), None, assume=False)
+
+    # loops in source order: the two cache-filling loops, then the pair loops k1 / k2
+    def table_hook(name):
+        def hook(ex, h, pre_, j):
+            # a table under construction holds masks over the ms samples: every store into it proves that length
+            # ('cached-masks-have-one-common-length'), and at least one mode index exists (n >= 1)
+            tab = h.deref(h.vars.get(name))
+            if not isinstance(tab, X.VMaskMap):
+                raise M.ContractMismatch(f'_optimize_core_adaptive: {name} is no longer the table of masks')
+            tab.n = ms
+        return hook
+
+    loops = {0: {'inv': inv_none, 'havoc_hook': table_hook('i1_cache')}, 1: {'inv': inv_none, 'havoc_hook': table_hook('i2_cache')},
+             2: {'inv': inv_blocks}, 3: {'inv': inv_blocks, 'body_end': block_end}}
+    ex = U.executor(fn, loops=loops, callees={'als._lstsq': call_lstsq, 'svd.matrix_skeleton': c_skeleton,
+                                              'dict': lambda ex_, s, a, k, nd: s.alloc(X.VMaskMap('cache-table'))}, axioms=AXD)
+    if ex.nloops != 4:
+        raise M.ContractMismatch(f'_optimize_core_adaptive: expected 4 loops, found {ex.nloops}')
+    ex.als = True
+    ex.mode = 'ematch'
+    lamb = S.opt_real('lamb')
+    st.vars.update(Q1=Q1, Q2=Q2, i1=i1, i2=i2, y_trn=y, Yl=Yl, Yr=Yr, e=z3.Real('e'), r=r, lamb=lamb, w=w, ltr=ltr, allow_swap=NONE,
+                   swap_tol=z3.Int('swap_tol'), cache=cache)
+    pre = [r1 >= 1, n1 >= 1, r2 >= 1, n2 >= 1, r3 >= 1, T.d0(q2) == r2, ms >= 0, st.vars['e'] >= 0, r >= 0]
+    res = U.run(ex, st, pre=pre)
+    U.cover('precondition-satisfiable', U.pre, axioms=AXD)
+    seen = set()
+    for p, o in res:
+        if o.kind != 'return':
+            U.post('no-exception', p, False, axioms=AXD)
+            continue
+        zero = bool(p.ghost.get('zero_block'))
+        seen.add(zero)
+        Qs = p.ghost.get('Qs')
+        U.post('the-unfolding-handed-to-the-SVD-is-(r1*n1)-x-(n2*r3)', p,
+               z3.And(Z(Qs.shape[0]) == T.mul_canon(r1, n1), Z(Qs.shape[1]) == T.mul_canon(n2, r3)) if Qs is not None else False, axioms=AXD, mode='ematch')
+        if cache_kind != 'none':
+            cf = p.heap[cache.oid].fields
+            U.post('both-index-tables-are-in-the-cache-afterwards', p, z3.BoolVal(set(cf) == {'i1', 'i2'}))
+            U.post('tables-found-in-the-cache-are-reused-not-rebuilt', p,
+                   z3.BoolVal(all(cf.get(k_).oid == v.oid and p.heap[v.oid].writes == 0 for k_, v in maps.items())))
+        if zero:
+            continue                       # zero merged block: outside the contract of matrix_skeleton(rel=True) - no claim
+        G1, G2 = [p.deref(x) for x in o.value.items] if isinstance(o.value, VTuple) and len(o.value.items) == 2 else (None, None)
+        ok = isinstance(G1, VArr) and G1.ndim == 3 and isinstance(G2, VArr) and G2.ndim == 3
+        U.post('result-is-a-pair-of-cores', p, z3.BoolVal(ok))
+        if not ok:
+            continue
+        q = Z(G1.shape[2])
+        U.post('left-core-keeps-outer-rank-and-mode-size', p, z3.And(Z(G1.shape[0]) == r1, Z(G1.shape[1]) == n1), axioms=AXD, mode='ematch')
+        U.post('right-core-keeps-mode-size-and-outer-rank', p, z3.And(Z(G2.shape[1]) == n2, Z(G2.shape[2]) == r3), axioms=AXD, mode='ematch')
+        U.post('the-two-cores-share-the-new-bond', p, Z(G2.shape[0]) == q, axioms=AXD, mode='ematch')
+        U.post('new-bond-at-least-1-and-within-the-cap', p, z3.And(q >= 1, q <= z3.If(r >= 1, r, 1)), axioms=AXD, mode='ematch')
+        call = [c for c in p.ghost.get('fact_calls', []) if c['fn'] == 'matrix_skeleton']
+        U.post('relative-truncation-with-the-caps-e-and-r-orthogonal-factor-on-the-side-of-the-sweep', p,
+               z3.BoolVal(len(call) == 1 and call[0]['rel'] is True and call[0]['give'] == ('r' if ltr else 'l') and call[0]['e'] is st.vars['e']
+                          and call[0]['r'] is r))
+        U.canary('canary-bond-always-1', p, q == 1, axioms=AXD)
+    U.post('zero-and-non-zero-block-paths-reached', U.pre, z3.BoolVal(seen == {True, False}))
+
+
+for _ltr, _ck, _w in ((True, 'empty', False), (True, 'i1', True), (False, 'empty', True), (False, 'i2', False), (True, 'none', False)):
+    def _mk(ltr=_ltr, ck=_ck, w=_w):
+        @unit(f'als._optimize_core_adaptive.shapes.{"ltr" if ltr else "rtl"}.{ck}', props=('C07',))
+        def u_(U):
+            _adaptive_unit(U, ltr, ck, w)
+    _mk()
+
+
+# ----------------------------------------------------------------------------------------------
+# als.als, rank-adaptive mode (r given, allow_swap=False, d >= 3): control tier.  The two-core step is opaque here (its shape
+# contract is conditional, see als._optimize_core_adaptive.shapes.*), so nothing is claimed about shapes / ranks of the result
+# except what is handed to the step: the rank cap of every step is min(r, bond + r_add) <= r.
+#
+#   * the working copy is the orthogonalised copy of Y0 (never Y0); Y0 / I_trn / y_trn keep their values; info as in the
+#     constant-rank mode (reset before use, exactly the documented keys, nswp = executed sweeps, documented stop reason consistent
+#     with _info_appr, reported r / e / e_vld are those of the returned list, cb True stops right after that sweep);
+#   * sweep order: left-to-right over the core pairs (k, k+1), k = 0..d-3, then right-to-left over (k-1, k), k = d-1..2; each step
+#     (from the second step of a half sweep on - the first one is executed outside the loop cut) replaces exactly these two cores
+#     by the result of one _optimize_core_adaptive call on (the two current cores, columns k / k+1 of I_trn, y_trn, the outer
+#     interfaces Yl[k], Yr[k+1], e_adap, the rank cap, lamb, w, the direction, the index-table cache chained from the previous step)
+#     and then rebuilds the interface between the pair and the rest from the neighbouring interface and the NEW core.
+# NOT covered: shapes / ranks / values of the result (bounded suite), the first step of each half sweep (peeled), allow_swap.
+
+def _als_adaptive_unit(U, with_cb):
+    fn = U.func('als', 'als')
+    st = U.state()
+    env = _als_setup(U, st, True, with_cb, with_cb, False)
+    Y0, A0, d, m, Icols, yt, info = env['Y0'], env['A0'], env['d'], env['m'], env['Icols'], env['yt'], env['info']
+    nswp, e, e_vld, lamb, skip = env['nswp'], env['e'], env['e_vld'], env['lamb'], env['skip']
+    r, r_add, e_adap = z3.Int('r'), z3.Int('r_add'), z3.Real('e_adap')
+    k_, t_ = z3.Int('k!ad'), z3.Int('t!ad')
+
+    def tt(s, v):
+        return C._tt_of(s, v)
+
+    def c_adaptive(ex, s, args, kwargs, node):
+        if len(args) != 11 or set(kwargs) != {'ltr', 'allow_swap', 'swap_tol', 'cache'}:
+            raise M.ContractMismatch('als(): _optimize_core_adaptive is no longer called with 11 positional arguments + ltr / allow_swap / swap_tol / cache')
+        cache = s.deref(kwargs['cache'])
+        if not isinstance(cache, VRec):
+            raise M.ContractMismatch('als(): the index-table cache is not a dict')
+        before = dict(cache.fields)
+        for key in ('i1', 'i2'):          # unit als._optimize_core_adaptive.shapes.*: both tables are in the cache afterwards, found ones are reused
+            cache.fields.setdefault(key, VOpaque(f'index table {key}'))
+        g1, g2 = VOpaque('G1'), VOpaque('G2')
+        s.ghost['ad_calls'] = s.ghost.get('ad_calls', []) + [dict(args=list(args), kw=dict(kwargs), cache_before=before, cache_oid=kwargs['cache'].oid)]
+        return VTuple([g1, g2])
+
+    callees = {'props.erank': lambda ex, s, a, k, n_: C.erank_f(tt(s, a[0]).arr, tt(s, a[0]).n),
+               'data.accuracy_on_data': lambda ex, s, a, k, n_: C.aod_f(tt(s, a[0]).arr, tt(s, a[0]).n),
+               'act_two.accuracy': lambda ex, s, a, k, n_: C.acc_f(tt(s, a[0]).arr, tt(s, a[0]).n, tt(s, a[1]).arr),
+               'als._optimize_core_adaptive': c_adaptive, 'np.unique': X.m_unique_als}
+
+    def fields(s):
+        return s.heap[info.oid].fields
+
+    def lists(s):
+        Y, Yl, Yr = [s.deref(s.vars[x]) for x in ('Y', 'Yl', 'Yr')]
+        if not (isinstance(Y, VSeq) and Y.tag == 'core' and isinstance(Yl, VSeq) and Yl.tag == 'optarr' and isinstance(Yr, VSeq) and Yr.tag == 'optarr'):
+            raise M.ContractMismatch('als(): Y / Yl / Yr are no longer the list of cores / the lists of interface matrices')
+        return Y, Yl, Yr
+
+    def common(ex, s):
+        Y, Yl, Yr = lists(s)
+        f = fields(s)
+        stop = S.as_opt(f['stop'])
+        Z0 = s.ghost['orth_result']
+        return [('lists-keep-their-length', z3.And(Y.n == d, Yl.n == d, Yr.n == d)),
+                ('interfaces-are-arrays', z3.And(z3.ForAll([k_], z3.Implies(z3.And(0 <= k_, k_ < d), Yl.arr[k_] != 0), patterns=[Yl.arr[k_]]),
+                                                 z3.ForAll([k_], z3.Implies(z3.And(0 <= k_, k_ < d), Yr.arr[k_] != 0), patterns=[Yr.arr[k_]]))),
+                ('info-holds-exactly-the-documented-keys-no-stale-ones', z3.BoolVal(set(f) == {'e', 'e_vld', 'nswp', 'stop', 'r', 't'})),
+                ('result-list-is-the-orthogonalised-copy', z3.BoolVal(s.vars['Y'].oid != Y0.oid and s.heap[Y0.oid].arr is A0)),
+                ('inputs-keep-their-values', z3.BoolVal(getattr(s.vars['I_trn'], 't', None) is Icols and getattr(s.vars['y_trn'], 't', None) is yt)),
+                ('sweep-counter', f['nswp'] == s.ghost['_j2']),
+                ('nswp-not-yet-reached-while-running', z3.Implies(stop.isnone, z3.Or(nswp.isnone, f['nswp'] < nswp.val))),
+                ('a-pending-reason-comes-from-before-the-first-sweep',
+                 z3.Or(stop.isnone, z3.And(s.ghost['_j2'] == 0, S.stop_in(f['stop'], ('e_vld', 'nswp'))))),
+                ('a-pending-nswp-reason-is-justified', z3.Implies(S.stop_is(f['stop'], 'nswp'), z3.And(z3.Not(nswp.isnone), nswp.val <= 0))),
+                ('a-pending-e_vld-reason-is-justified-by-the-initial-tensor',
+                 z3.Implies(S.stop_is(f['stop'], 'e_vld'), z3.And(z3.Not(e_vld.isnone), C.aod_f(Z0, d) >= 0, C.aod_f(Z0, d) <= e_vld.val))),
+                ('no-swap-without-allow_swap', z3.BoolVal(s.vars.get('was_swap', False) is False))]
+
+    def inv_cover(ex, s, j):
+        return [('slices-checked-so-far-are-covered',
+                 z3.ForAll([t_], z3.Implies(z3.And(0 <= t_, t_ < j), X.ndist(Icols[t_], m) == T.d1(A0[t_])), patterns=[Icols[t_]]))]
+
+    def cache_keys(s, want):
+        c = s.deref(s.vars.get('idx_cache'))
+        return [('the-index-table-cache-carries-the-table-of-the-shared-core', z3.BoolVal(isinstance(c, VRec) and set(c.fields) == want))]
+
+    def havoc_hook(ex, h, pre, j):
+        for nm in ('I_trn', 'was_swap'):
+            if nm in pre.vars:
+                h.vars[nm] = pre.vars[nm]
+        Y, Yl, Yr = lists(h)
+        h.ghost['body0'] = dict(Y=Y.arr, Yl=Yl.arr, Yr=Yr.arr, n_ad=len(h.ghost.get('ad_calls', [])), n_ct=len(h.ghost.get('contracts', [])),
+                                I_trn=h.vars.get('I_trn'), was_swap=h.vars.get('was_swap'),
+                                cache=h.vars['idx_cache'].oid if isinstance(h.vars.get('idx_cache'), VRef) else None)
+
+    def not_rebound(ex, s):
+        b0 = s.ghost['body0']
+        ex.oblige(s, 'post', 'sweeps-without-allow_swap-do-not-rebind-I_trn-or-was_swap',
+                  z3.BoolVal(s.vars.get('I_trn') is b0['I_trn'] and s.vars.get('was_swap') is b0['was_swap']), None, assume=False)
+
+    def step_checks(ex, s, o, j, ltr):
+        if o.kind != 'normal':
+            return
+        not_rebound(ex, s)
+        b0 = s.ghost['body0']
+        ads, cts = s.ghost.get('ad_calls', [])[b0['n_ad']:], s.ghost.get('contracts', [])[b0['n_ct']:]
+        dr = 'ltr' if ltr else 'rtl'
+        ob = lambda lbl, g: ex.oblige(s, 'post', f'{dr}: {lbl}', g, None, assume=False)
+        ob('one-two-core-step-and-one-interface-update-per-step', z3.BoolVal(len(ads) == 1 and len(cts) == 1))
+        if len(ads) != 1 or len(cts) != 1:
+            return
+        k = j if ltr else d - 1 - j
+        a, b = (k, k + 1) if ltr else (k - 1, k)                 # the pair of cores of this step
+        Y, Yl, Yr = lists(s)
+        c = ads[0]
+        A_ = [s.deref(x) for x in c['args']]
+        Q1, Q2, i1, i2, yv = A_[0], A_[1], A_[2], A_[3], A_[4]
+        ob('the-two-cores-of-the-step-are-the-current-neighbours',
+           z3.And(Q1.t == b0['Y'][a], Q2.t == b0['Y'][b]) if getattr(Q1, 't', None) is not None and getattr(Q2, 't', None) is not None else False)
+        ob('the-samples-are-indexed-by-the-two-columns',
+           z3.And(i1.t == Icols[a], i2.t == Icols[b]) if getattr(i1, 'tag', None) == 'ivec' and getattr(i2, 'tag', None) == 'ivec' else False)
+        ob('the-outer-interfaces-of-the-pair-are-used', z3.And(_code(c['args'][5]) == b0['Yl'][a], _code(c['args'][6]) == b0['Yr'][b]))
+        rmax = c['args'][8]
+        bond = T.d2(b0['Y'][a])
+        ob('the-rank-cap-of-the-step-is-min(r, bond + r_add)-hence-at-most-r',
+           z3.And(Z(rmax) <= r, Z(rmax) <= bond + r_add, z3.Or(Z(rmax) == r, Z(rmax) == bond + r_add)) if M.is_num(rmax) else False)
+        ob('data-tolerance-regularisation-weights-direction-are-passed-through',
+           z3.BoolVal(getattr(yv, 't', None) is yt and c['args'][7] is e_adap and c['args'][9] is lamb and c['args'][10] is env['w']
+                      and c['kw']['ltr'] is ltr and c['kw']['allow_swap'] is NONE))
+        ob('the-index-table-cache-is-chained-from-the-previous-step',
+           z3.BoolVal(c['cache_oid'] == b0['cache'] and set(c['cache_before']) == ({'i1'} if ltr else {'i2'})))
+        ret = s.ghost.get('ad_rets')
+        ob('only-the-two-cores-of-the-step-are-replaced',
+           z3.ForAll([t_], z3.Implies(z3.And(t_ != a, t_ != b), Y.arr[t_] == b0['Y'][t_]), patterns=[Y.arr[t_]]))
+        ev = cts[0]
+        want = 'jk,kjl->jl' if ltr else 'ijk,kj->ij'
+        ok = ev['spec'].replace(' ', '') == want and len(ev['raw']) == 2 and ev['outraw'] is None
+        ob('the-interface-contraction-is-the-documented-one-and-returns-a-new-array', z3.BoolVal(ok))
+        if not ok:
+            return
+        if ltr:
+            old_if, core_op, lst, old_l, pos, other, old_o = _code(ev['raw'][0]), _core_of(ev['ops'][1]), Yl, b0['Yl'], k + 1, Yr, b0['Yr']
+            used_if, used_core = b0['Yl'][k], Y.arr[k]
+        else:
+            old_if, core_op, lst, old_l, pos, other, old_o = _code(ev['raw'][1]), _core_of(ev['ops'][0]), Yr, b0['Yr'], k - 1, Yl, b0['Yl']
+            used_if, used_core = b0['Yr'][k], Y.arr[k]
+        ob('the-interface-next-to-the-pair-is-rebuilt-from-the-outer-interface-and-the-new-core', z3.And(old_if == used_if, core_op == used_core))
+        ob('only-that-interface-is-replaced',
+           z3.And(z3.ForAll([t_], z3.Implies(t_ != pos, lst.arr[t_] == old_l[t_]), patterns=[lst.arr[t_]]), other.arr == old_o))
+
+    def inv_ltr(ex, s, j):
+        return common(ex, s) + cache_keys(s, {'i1'})
+
+    def inv_rtl(ex, s, j):
+        return common(ex, s) + cache_keys(s, {'i2'})
+
+    def sweep_end(ex, s, o, j):
+        not_rebound(ex, s)
+        if with_cb and o.kind == 'normal':
+            ex.oblige(s, 'post', 'callback-True-stops-right-after-that-sweep', z3.Not(s.ghost.get('cb_true', z3.BoolVal(True))), None, assume=False)
+
+    loops = {0: {'inv': inv_cover},
+             1: {'inv': lambda ex, s, j: [], 'havoc_hook': havoc_hook},
+             2: {'inv': lambda ex, s, j: common(ex, s), 'havoc_hook': havoc_hook, 'body_end': sweep_end},
+             3: {'inv': inv_ltr, 'peel': 1, 'havoc_hook': havoc_hook, 'body_end': lambda ex, s, o, j: step_checks(ex, s, o, j, True)},
+             4: {'inv': inv_rtl, 'peel': 1, 'havoc_hook': havoc_hook, 'body_end': lambda ex, s, o, j: step_checks(ex, s, o, j, False)}}
+    ex = U.executor(fn, loops=loops, callees=callees, axioms=AXA, lenient=True)
+    if ex.nloops != 5:
+        raise M.ContractMismatch(f'als(): expected 5 loops (coverage check, pre-sweep, while, two half sweeps), found {ex.nloops}')
+    ex.als = True
+    ex.asserts = True
+    ex.als_contract_shapes = False          # control tier: the shapes of the adaptive mode are not followed
+    ex.mode = 'ematch'
+    st.vars.update(I_trn=env['I_trn'], y_trn=env['y_trn'], Y0=Y0, nswp=nswp, e=e, info=info, I_vld=env['I_vld'], y_vld=env['y_vld'],
+                   e_vld=e_vld, r=r, r_add=r_add, e_adap=e_adap, lamb=lamb, w=env['w'], cb=env['cb'],
+                   swap_tol=z3.Int('swap_tol'), allow_swap=False, allow_skip_cores=skip, use_stab=False, log=False, update_sol=NONE)
+    pre = [T.wf(A0, d), d >= 3, m >= 0, r >= 1, r_add >= 0,
+           z3.ForAll([k_], z3.Implies(z3.And(0 <= k_, k_ < d), X.inrng(Icols[k_], m, T.d1(A0[k_]))), patterns=[Icols[k_]])]
+    res = U.run(ex, st, pre=pre)
+    U.cover('precondition-satisfiable', U.pre, axioms=AXA)
+    nret = 0
+    for p, o in res:
+        if o.kind == 'raise':
+            continue                                # the coverage error: unit als.als.validate.adaptive
+        if o.kind != 'return':
+            U.post('only-returns-or-the-coverage-error', p, False, axioms=AXA)
+            continue
+        nret += 1
+        f = fields(p)
+        Ys = p.deref(o.value)
+        ok = isinstance(o.value, VRef) and isinstance(Ys, VSeq) and Ys.tag == 'core'
+        if not ok:
+            U.post('returns-a-list-of-cores', p, False)
+            continue
+        jj = p.ghost['_j2']
+        Z0 = p.ghost['orth_result']
+        U.post('returns-the-working-copy-not-the-initial-tensor', p, z3.BoolVal(o.value.oid != Y0.oid and p.heap[Y0.oid].arr is A0))
+        U.post('inputs-keep-their-values', p, z3.BoolVal(p.heap[Y0.oid].arr is A0 and getattr(p.vars['I_trn'], 't', None) is Icols
+                                                          and getattr(p.vars['y_trn'], 't', None) is yt))
+        U.post('result-has-d-cores', p, Ys.n == d, axioms=AXA)
+        U.post('info-holds-exactly-the-documented-keys-no-stale-ones', p, z3.BoolVal(set(f) == {'e', 'e_vld', 'nswp', 'stop', 'r', 't'}))
+        U.post('exactly-one-documented-stop-reason', p, S.stop_in(f['stop'], ALS_REASONS), axioms=AXA)
+        U.post('info-nswp-is-the-number-of-executed-sweeps', p, z3.And(f['nswp'] == jj + 1, f['nswp'] >= 1), axioms=AXA)
+        U.post('reported-rank-is-that-of-the-returned-tensor', p, f['r'] == C.erank_f(Ys.arr, Ys.n), axioms=AXA)
+        U.post('reported-validation-error-is-that-of-the-returned-tensor', p, f['e_vld'] == C.aod_f(Ys.arr, Ys.n), axioms=AXA)
+        Yold = p.deref(p.vars['Yold'])
+        U.post('reported-convergence-is-relative-to-the-copy-taken-at-sweep-start', p, f['e'] == C.acc_f(Ys.arr, Ys.n, Yold.arr), axioms=AXA)
+        U.post('stop-e-only-if-reported-value-within-threshold', p,
+               z3.Implies(S.stop_is(f['stop'], 'e'), z3.And(z3.Not(e.isnone), f['e'] >= 0, f['e'] <= e.val)), axioms=AXA)
+        U.post('stop-e_vld-only-if-final-or-initial-validation-error-within-threshold', p,
+               z3.Implies(S.stop_is(f['stop'], 'e_vld'),
+                          z3.And(z3.Not(e_vld.isnone),
+                                 z3.Or(z3.And(f['e_vld'] >= 0, f['e_vld'] <= e_vld.val),
+                                       z3.And(f['nswp'] == 1, C.aod_f(Z0, d) >= 0, C.aod_f(Z0, d) <= e_vld.val)))), axioms=AXA)
+        U.post('stop-nswp-only-if-requested-and-reached', p,
+               z3.Implies(S.stop_is(f['stop'], 'nswp'), z3.And(z3.Not(nswp.isnone), f['nswp'] >= nswp.val)), axioms=AXA)
+        U.post('stop-nswp-after-exactly-nswp-sweeps', p,
+               z3.Implies(z3.And(S.stop_is(f['stop'], 'nswp'), nswp.val >= 1), f['nswp'] == nswp.val), axioms=AXA)
+        if with_cb:
+            U.post('stop-cb-only-right-after-the-callback-returned-True', p,
+                   z3.Implies(S.stop_is(f['stop'], 'cb'), p.ghost.get('cb_true', z3.BoolVal(False))), axioms=AXA)
+        else:
+            U.post('stop-cb-needs-a-callback', p, z3.Not(S.stop_is(f['stop'], 'cb')), axioms=AXA)
+        U.post('each-half-sweep-visits-the-d-2-neighbouring-pairs', p,
+               z3.And(p.ghost['_j1'] == d - 1, p.ghost['_j3'] == d - 2, p.ghost['_j4'] == d - 2), axioms=AXA)
+        tr_ = p.trace
+        last = max(i for i, x in enumerate(tr_) if x == 'loop2:body')
+        tail = tr_[last:]
+        U.post('a-sweep-goes-left-to-right-then-right-to-left', p,
+               z3.BoolVal('loop3:exit' in tail and 'loop4:exit' in tail and tail.index('loop3:exit') < tail.index('loop4:exit')))
+        U.canary('canary-always-stops-by-nswp', p, S.stop_is(f['stop'], 'nswp'), axioms=AXA)
+    U.post('a-return-site-is-reached', U.pre, z3.BoolVal(nret >= 1))
+
+
+for _cb in (False, True):
+    def _mk(cb=_cb):
+        @unit(f'als.als.adaptive.control.{"cb" if cb else "nocb"}', props=('C07', 'C10'))
+        def u_(U):
+            _als_adaptive_unit(U, cb)
+    _mk()
+
+
+# ==============================================================================================
+# Hand-made mutants (MUT_BASE=/tmp/base tools/mut.sh als.py '<sed>' <units>) and the NAMED obligation that reports each.
+#
+# als._lstsq.*
+#   s/AtA = A.T @ A$/AtA = A @ A.T/                          -> call-pre elementwise-shapes-agree, post solver-gets-the-regularised-normal-matrix
+#   s/Aty = AW.T @ y/Aty = A.T @ y/                           -> post solver-gets-the-projected-right-hand-side (+ canary-weights-ignored becomes provable)
+#   s/AtA + lamb \* np.identity/AtA + np.identity/            -> post solver-gets-the-regularised-normal-matrix, solution-satisfies-the-regularised-normal-equations
+#   s/y = y - A@update_sol/y = y + A@update_sol/              -> post solver-gets-the-(projected-)right-hand-side (units -u, wu)
+#   s/if not overwrite_a:/if overwrite_a:/                    -> post A-itself-is-overwritten-iff-overwrite_a (refuted)
+#   s/            y = y \* w/            pass/                 -> post solver-gets-the-scaled-right-hand-side, only-temporaries-are-overwritten
+#   s/AW = w\[:, None\] \* A/AW = A/                          -> post solver-gets-the-regularised-normal-matrix (units w-, wu)
+#   quiet (equivalent): s/y = y \* w/y = w * y/  (had is commutative)
+# als._optimize_core.values.*
+#   swap of the two np.newaxis positions in lhs / rhs          -> post design-matrix-rows-are-kron-of-left-and-right-interface-rows-in-C-order,
+#                                                                 solver-model-values-are-the-tensor-model-values-at-the-samples   (no shape obligation sees it)
+#   s/w=w\[idx\] if w is not None/w=w if w is not None/       -> call-pre _lstsq: one weight per row, post weights-are-those-of-the-samples-of-the-slice
+#   s/= sol.reshape(Q\[:, k, :\].shape)/= sol.reshape(Q[:, k, :].T.shape).T/   -> post slice-k-is-the-solution-folded-in-the-same-C-order
+#   s/_lstsq(A, b, lamb=lamb,/_lstsq(A, b, lamb=None,/        -> post regularisation-is-passed-through, slice-k-satisfies-the-regularised-normal-equations-of-its-samples
+#   s/Q\[:, k, :\] += sol/Q[:, k, :] = sol/                   -> post slice-k-is-the-old-slice-plus-the-solution-folded-in-the-same-C-order
+#   s/Q\[:, k, :\] = sol.reshape/Q[:, 0, :] = sol.reshape/    -> post the-written-slice-is-slice-k, no-other-slice-changes-in-this-step, inv-keep visited-slices-without-a-sample-are-untouched
+#   s/^    Q = Q.copy()$/    Q = Q/                            -> post works-on-a-copy-of-the-core (refuted)
+#   undecided (equivalent): s/b = y_trn\[idx\]/b = y_trn[idx] * 1/  -> Unsupported (no denotation)
+# als.als.const.*
+#   'nswp': 0 dropped from info.update                         -> call-pre _info_appr: info['nswp'] is set
+#   info.pop('rearrange', None) -> pass                        -> inv-init loop2.info-holds-exactly-the-documented-keys-no-stale-ones
+#   Y = teneva.copy(Y0) -> Y = Y0                              -> inv-init loop2.result-list-is-a-copy
+#   ltr contract(..., out=Yl[k+1]) -> out=Yl[k]                -> call-pre contract-out-has-the-result-shape, post ltr: the-next-interface-is-built-from-...
+#   ltr contract(..., Y[k][:, i, :], ...) -> Yold[k][:, i, :]  -> post ltr: the-next-interface-is-built-from-the-interface-of-core-k-and-the-new-core-k
+#   coverage loop range(d) -> range(d-1)                       -> raise-iff accepts-only-covered-slices-or-allowed-skipping
+#   info['nswp'] += 1 -> += 2                                  -> inv-keep loop2.sweep-counter, post info-nswp-is-the-number-of-executed-sweeps
+#   rtl range(d-1, 0 if r is None else 1, -1) -> range(d-1, 1, -1)   -> post the-pre-sweep-and-each-half-sweep-visit-d-1-cores
+#   Yl = [np.ones((m, Y[k].shape[0])) ...] -> shape[2]         -> inv-init loop2.left-interfaces-fit
+#   rtl contract(..., Yr[k], out=Yr[k-1]) -> Yr[k-1], out=Yr[k-1]   -> call-pre contract-index-k-dimensions-agree, post rtl: the-next-interface-is-built-from-...
+# als.als.adaptive.control.* / als.als.validate.adaptive
+#   r_max = min(...) -> max(...)                               -> post ltr: the-rank-cap-of-the-step-is-min(r, bond + r_add)-hence-at-most-r
+#   idx_cache = dict(i1=idx_cache['i2']) -> dict(i2=...)       -> inv-init loop3.the-index-table-cache-carries-the-table-of-the-shared-core
+#   ltr step: Yr[k+1] -> Yr[k]                                 -> post ltr: the-outer-interfaces-of-the-pair-are-used
+#   ltr range(0, d-1 if r is None else d-2, +1) -> range(0, d-1, +1)   -> post each-half-sweep-visits-the-d-2-neighbouring-pairs
+#   Yl[k+1] = contract(..., Y[k][:, i, :]) -> Y[k+1][:, i, :]  -> post ltr: the-interface-next-to-the-pair-is-rebuilt-from-the-outer-interface-and-the-new-core
+#   quiet (equivalent): orthogonalize(Y, 0, use_stab) -> orthogonalize(Y0, 0, use_stab)
+# als._optimize_core_adaptive.shapes.*
+#   shape = Q1.shape[0], Q2.shape[2] -> Q2.shape[1]            -> call-pre reshape-preserves-size, block-assignment-shape-matches
+#   matrix_skeleton(Qs, e, r, -> (Qs, e, r+1,                  -> post new-bond-at-least-1-and-within-the-cap, relative-truncation-with-the-caps-e-and-r-...
+#   give_to='r' if ltr else 'l' -> swapped                     -> post relative-truncation-with-the-caps-e-and-r-orthogonal-factor-on-the-side-of-the-sweep (refuted)
+#   _lstsq(A, b, lamb=lamb, -> lamb=None                       -> post regularisation-and-weights-reach-the-block-solve
+#   w=w[idx] if ... -> w=w if ...                              -> call-pre _lstsq: one weight per row
+#   undecided: swapped shapeQ1 / shapeQ2 in the final reshapes -> Unsupported (reshape pattern); cache['i2'] = ... -> cache['i1'] = ... -> Unsupported (after key-present[i2])
